@@ -27,11 +27,11 @@ bounded C05 40000 300000 sync2.Map atomic contract under concurrent use: rounds 
 bounded C09 40000 300000 sync2.Map atomic contract under concurrent use: rounds of 5 scenario families with forced promotions
 
 func Map.Load
-  trusted abstract contract of sync2.Map: sequential behaviour proved by the #impl refinement below, atomicity (C04) assumed
+  trusted abstract contract of sync2.Map: sequential behaviour proved by the #impl refinement below, atomicity (C04) assumed - interference is checked at lock acquisition only (#lk variants)
   ensures ok == has(absmap(m), key) && value == absmap(m)[key]
 
 func Map.LoadOrStore
-  trusted abstract contract of sync2.Map: sequential behaviour proved by the #impl refinement below, atomicity (C04) assumed
+  trusted abstract contract of sync2.Map: sequential behaviour proved by the #impl refinement below, atomicity (C04) assumed - interference is checked at lock acquisition only (#lk variants)
   ensures loaded == old(has(absmap(m), key))
   ensures loaded ==> actual == old(absmap(m)[key])
   ensures !loaded ==> actual == value
@@ -42,7 +42,7 @@ func Map.LoadOrStore
   assigns map(absmap(m))
 
 func Map.LoadAndDelete
-  trusted abstract contract of sync2.Map: sequential behaviour proved by the #impl refinement below, atomicity (C04) assumed
+  trusted abstract contract of sync2.Map: sequential behaviour proved by the #impl refinement below, atomicity (C04) assumed - interference is checked at lock acquisition only (#lk variants)
   ensures loaded == old(has(absmap(m), key)) && value == old(absmap(m)[key])
   ensures forall k K :: {has(absmap(m), k)} has(absmap(m), k) == (old(has(absmap(m), k)) && k != key)
   ensures forall k K :: {absmap(m)[k]} k != key ==> absmap(m)[k] == old(absmap(m)[k])
@@ -50,7 +50,7 @@ func Map.LoadAndDelete
   assigns map(absmap(m))
 
 func Map.Store
-  trusted abstract contract of sync2.Map: sequential behaviour proved by the #impl refinement below, atomicity (C04) assumed
+  trusted abstract contract of sync2.Map: sequential behaviour proved by the #impl refinement below, atomicity (C04) assumed - interference is checked at lock acquisition only (#lk variants)
   ensures forall k K :: {has(absmap(m), k)} has(absmap(m), k) == (old(has(absmap(m), k)) || k == key)
   ensures forall k K :: {absmap(m)[k]} k != key ==> absmap(m)[k] == old(absmap(m)[k])
   ensures absmap(m)[key] == value
@@ -58,14 +58,14 @@ func Map.Store
   assigns map(absmap(m))
 
 func Map.Delete
-  trusted abstract contract of sync2.Map: sequential behaviour proved by the #impl refinement below, atomicity (C04) assumed
+  trusted abstract contract of sync2.Map: sequential behaviour proved by the #impl refinement below, atomicity (C04) assumed - interference is checked at lock acquisition only (#lk variants)
   ensures forall k K :: {has(absmap(m), k)} has(absmap(m), k) == (old(has(absmap(m), k)) && k != key)
   ensures forall k K :: {absmap(m)[k]} k != key ==> absmap(m)[k] == old(absmap(m)[k])
   ensures len(absmap(m)) == old(len(absmap(m))) - b2i(old(has(absmap(m), key)))
   assigns map(absmap(m))
 
 func Map.Range
-  trusted abstract contract of sync2.Map: sequential behaviour proved by the #impl refinement below, atomicity (C04) assumed: each key exactly once, stop at first false
+  trusted abstract contract of sync2.Map: sequential behaviour proved by the #impl refinement below, atomicity (C04) assumed - interference is checked at lock acquisition only (#lk variants): each key exactly once, stop at first false
   mode rangeloop
   opt rangemap absmap(m)
 
@@ -631,6 +631,77 @@ func Map.Range#impl
   ensures[stop]    forall i :: {logarg(f, 0, i)} 0 <= i && i < loglen(f) - 1 ==> f(logarg(f, 0, i), logarg(f, 1, i))
   ensures[all]     (forall i :: {logarg(f, 0, i)} 0 <= i && i < loglen(f) ==> f(logarg(f, 0, i), logarg(f, 1, i))) ==> (forall k K :: {present(m, k)} present(m, k) ==> (exists i :: 0 <= i && i < loglen(f) && logarg(f, 0, i) == k))
   assigns fields(m), fields(addr(m.read)), log(f)
+  loop 0 invariant !itermod && 0 <= loglen(f) && loglen(f) <= niter
+  loop 0 invariant forall i :: {logarg(f, 0, i)} 0 <= i && i < loglen(f) ==> visited[logarg(f, 0, i)] && present(m, logarg(f, 0, i)) && logarg(f, 1, i) == cval(m, logarg(f, 0, i)) && f(logarg(f, 0, i), logarg(f, 1, i))
+  loop 0 invariant forall i, j :: {logarg(f, 0, i), logarg(f, 0, j)} 0 <= i && i < j && j < loglen(f) ==> logarg(f, 0, i) != logarg(f, 0, j)
+  loop 0 invariant forall k K :: {visited[k]} visited[k] ==> has(rm(m), k) && (present(m, k) ==> (exists i :: 0 <= i && i < loglen(f) && logarg(f, 0, i) == k))
+
+// Interference at lock acquisition (`opt lockhavoc`): the same clauses as the #impl contracts, but when the call takes
+// m.mu everything other goroutines may have done before it got the mutex is forgotten (all heaps, maps, allocation
+// counter) and only the `rely` - the representation invariant - is assumed; `old` then means the state right after
+// the acquisition. Values read before the lock are stale there: the double-checked locking of map.go (re-load m.read
+// under the lock before trusting m.dirty) is what these obligations check. Interference between other atomic steps is
+// NOT modelled (that is C04).
+func Map.Load#lk
+  property C03, C05, C09
+  requires m != nil && expunged != nil && !fresh(expunged) && minv(m)
+  opt lockhavoc on
+  rely minv(m) && expunged == old(expunged)
+  ensures[ok]    ok == old(present(m, key))
+  ensures[value] ok ==> value == old(cval(m, key))
+  ensures[zero]  !ok ==> value == zero(V)
+  ensures[inv]   minv(m)
+  ensures[view]  sameview(m)
+  assigns heap
+
+func Map.Store#lk
+  property C03, C05, C09
+  requires m != nil && expunged != nil && !fresh(expunged) && minv(m)
+  opt lockhavoc on
+  rely minv(m) && expunged == old(expunged)
+  ensures[inv]   minv(m)
+  ensures[has]   forall k K :: {present(m, k)} present(m, k) == (old(present(m, k)) || k == key)
+  ensures[vals]  forall k K :: {present(m, k)} k != key && present(m, k) ==> cval(m, k) == old(cval(m, k))
+  ensures[value] cval(m, key) == value
+  assigns heap
+
+func Map.LoadOrStore#lk
+  property C03, C05, C09
+  requires m != nil && expunged != nil && !fresh(expunged) && minv(m)
+  opt lockhavoc on
+  rely minv(m) && expunged == old(expunged)
+  ensures[loaded] loaded == old(present(m, key))
+  ensures[actual] (loaded ==> actual == old(cval(m, key))) && (!loaded ==> actual == value)
+  ensures[inv]    minv(m)
+  ensures[has]    forall k K :: {present(m, k)} present(m, k) == (old(present(m, k)) || k == key)
+  ensures[vals]   forall k K :: {present(m, k)} (k != key || loaded) && present(m, k) ==> cval(m, k) == old(cval(m, k))
+  ensures[value]  !loaded ==> cval(m, key) == value
+  assigns heap
+
+func Map.LoadAndDelete#lk
+  property C03, C05, C09
+  requires m != nil && expunged != nil && !fresh(expunged) && minv(m)
+  opt lockhavoc on
+  rely minv(m) && expunged == old(expunged)
+  ensures[loaded] loaded == old(present(m, key))
+  ensures[value]  (loaded ==> value == old(cval(m, key))) && (!loaded ==> value == zero(V))
+  ensures[inv]    minv(m)
+  ensures[has]    forall k K :: {present(m, k)} present(m, k) == (old(present(m, k)) && k != key)
+  ensures[vals]   forall k K :: {present(m, k)} k != key && present(m, k) ==> cval(m, k) == old(cval(m, k))
+  assigns heap
+
+func Map.Range#lk
+  property C03, C05, C09
+  requires m != nil && expunged != nil && !fresh(expunged) && minv(m)
+  opt lockhavoc on
+  rely minv(m) && expunged == old(expunged)
+  ensures[inv]     minv(m)
+  ensures[view]    sameview(m)
+  ensures[members] forall i :: {logarg(f, 0, i)} 0 <= i && i < loglen(f) ==> present(m, logarg(f, 0, i)) && logarg(f, 1, i) == cval(m, logarg(f, 0, i))
+  ensures[once]    forall i, j :: {logarg(f, 0, i), logarg(f, 0, j)} 0 <= i && i < j && j < loglen(f) ==> logarg(f, 0, i) != logarg(f, 0, j)
+  ensures[stop]    forall i :: {logarg(f, 0, i)} 0 <= i && i < loglen(f) - 1 ==> f(logarg(f, 0, i), logarg(f, 1, i))
+  ensures[all]     (forall i :: {logarg(f, 0, i)} 0 <= i && i < loglen(f) ==> f(logarg(f, 0, i), logarg(f, 1, i))) ==> (forall k K :: {present(m, k)} present(m, k) ==> (exists i :: 0 <= i && i < loglen(f) && logarg(f, 0, i) == k))
+  assigns heap, log(f)
   loop 0 invariant !itermod && 0 <= loglen(f) && loglen(f) <= niter
   loop 0 invariant forall i :: {logarg(f, 0, i)} 0 <= i && i < loglen(f) ==> visited[logarg(f, 0, i)] && present(m, logarg(f, 0, i)) && logarg(f, 1, i) == cval(m, logarg(f, 0, i)) && f(logarg(f, 0, i), logarg(f, 1, i))
   loop 0 invariant forall i, j :: {logarg(f, 0, i), logarg(f, 0, j)} 0 <= i && i < j && j < loglen(f) ==> logarg(f, 0, i) != logarg(f, 0, j)
